@@ -44,6 +44,14 @@ USERS = [
     ("weak_varprio", ":~ {H}. [S@1,V]\n:~ dpe(B,A), t(L). [A@L-1,B]", 2),
     ("weak_exprprio", ":~ {H}. [S@1,V]\n:~ dpe(B,A). [A@0+1,B]", 2),
     ("weak_sameprio", ":~ {H}. [S@1,V]\n:~ dpe(B,A). [A@1,B]", 2),
+    ("sum_not", "foo :- not 3 <= #sum {{ S,V : {H} }}.", 2),
+    ("sum_notnot", "foo :- not not 3 <= #sum {{ S,V : {H} }}.", 2),
+    ("sum_scope_clash", "foo(X) :- X = #sum {{ S,V : {H} }}, 1 <= #count {{ Y : dpe(_,Y) }}.", 2),
+    ("sum_scope_clash_v", "foo(X) :- X = #sum {{ S,V : {H} ; Y,V,a : dpe(V,Y) }}.", 2),
+    ("sum_arith_tuple", "foo(X) :- X = #sum {{ S,V/3 : {H} }}.", 2),
+    ("sum_fun_tuple", "foo(X) :- X = #sum {{ S,f(V) : {H} }}.", 2),
+    ("weak_arith_tuple", ":~ {H}. [S@1,V/3]", 2),
+    ("weak_zero_tuple", ":~ {H}. [S@1,V*0]", 2),
     ("anon", "foo :- {HA}, S > 1.", 2),
     ("two_uses", "foo(X) :- X = #sum {{ S,V : {H} }}. bar(V) :- {H}, S > 2.", 2),
     ("plain_body", "foo(V,S) :- {H}.", 2),
